@@ -66,3 +66,60 @@ func (v *VerifC10Replicas) ReplicasFor(tok string) (hosts []*HostInfo, endToken 
 	}
 	return ht.hosts, ht.token.String(), true
 }
+
+// ---- the token-aware policy's view (topology-change sequences sub-suite)
+
+// VerifC10NewPolicy is TokenAwareHostPolicy(RoundRobinHostPolicy()) initialised the way
+// tokenAwareHostPolicy.Init(session) does it, with the session keyspace name and a keyspace
+// metadata getter supplied by the harness (the substitution policies_test.go makes).
+func VerifC10NewPolicy(keyspace string, fetch func(keyspace string) (*KeyspaceMetadata, error)) HostSelectionPolicy {
+	p := TokenAwareHostPolicy(RoundRobinHostPolicy())
+	t := p.(*tokenAwareHostPolicy)
+	t.getKeyspaceName = func() string { return keyspace }
+	t.getKeyspaceMetadata = fetch
+	t.logger = nopLogger{}
+	return p
+}
+
+// VerifC10PolicyView returns the token ring the policy currently serves (nil: none) and the
+// replica map it holds for the keyspace (nil: no entry for the keyspace).
+func VerifC10PolicyView(p HostSelectionPolicy, keyspace string) (*VerifC10Ring, *VerifC10Replicas) {
+	t, ok := p.(*tokenAwareHostPolicy)
+	if !ok {
+		return nil, nil
+	}
+	meta := t.getMetadataReadOnly()
+	if meta == nil || meta.tokenRing == nil {
+		return nil, nil
+	}
+	ring := &VerifC10Ring{meta.tokenRing}
+	m, ok := meta.replicas[keyspace]
+	if !ok {
+		return ring, nil
+	}
+	return ring, &VerifC10Replicas{m, meta.tokenRing.partitioner}
+}
+
+// OwnerOf is tokenRing.GetHostForToken(partitioner.ParseString(tok)).
+func (v *VerifC10Ring) OwnerOf(tok string) *HostInfo {
+	h, _ := v.r.GetHostForToken(v.r.partitioner.ParseString(tok))
+	return h
+}
+
+// Entries returns the replica map as (end token, replicas) in map order.
+func (v *VerifC10Replicas) Entries() ([]string, [][]*HostInfo) {
+	ts := make([]string, len(v.m))
+	hs := make([][]*HostInfo, len(v.m))
+	for i, e := range v.m {
+		ts[i], hs[i] = e.token.String(), e.hosts
+	}
+	return ts, hs
+}
+
+// VerifC10Query is a Query for the keyspace with the given routing key.
+func VerifC10Query(keyspace string, routingKey []byte) ExecutableQuery {
+	q := &Query{routingInfo: &queryRoutingInfo{}}
+	q.getKeyspace = func() string { return keyspace }
+	q.RoutingKey(routingKey)
+	return q
+}
